@@ -313,6 +313,12 @@ func subHandler(p Pair, side int, base string, authz bool) (evalFn, error) {
 			if side == 2 {
 				sp.vals = []kv{{"k1", "ab"}}
 			}
+		case "values.v|k":
+			// the end of one value and the next name change places ("role:admin team:guests team:ops" either way)
+			sp.vals = []kv{{"role", "admin"}, {"team", "guests team:ops"}}
+			if side == 2 {
+				sp.vals = []kv{{"role", "admin team:guests"}, {"team", "ops"}}
+			}
 		case "id|fwd_headers":
 			sp.id, sp.fwdResp = "mz", []string{"X-Result"}
 			if side == 2 {
